@@ -187,7 +187,8 @@ DEGENERATE = [{"matrix": m, "prim": [], "calls": CALLS, "named": False, "tuples"
               for m in ([], [[]], [[], []]) for pes in (False, True)]
 # no rows but declared columns: a primary column cannot be covered, secondary ones need not be
 DEGENERATE += [{"matrix": [], "prim": pr, "calls": CALLS, "names": nm, "tuples": False, "pass_empty_secondary": False}
-               for pr, nm in (([True], ["A"]), ([False], ["A"]), ([True, False], ["A", "B"]), ([False, False], [3, 4]))]
+               for pr, nm in (([True], ["A"]), ([False], ["A"]), ([True, False], ["A", "B"]), ([False, False], [3, 4]),
+                                 ([False, True], ["A", "B"]), ([False, True, False], [7, 8, 9]), ([True, True, False], ["p", "q", "r"]))]
 
 
 def gen_random(rng, n):
